@@ -20,12 +20,15 @@ import (
 // clock and resolved by a worker becoming free or by the clock passing the busy
 // timeout.
 
-// RCStep kinds: 0 start(key), 1 complete(key,out), 2 advance(adv ms).
+// RCStep kinds: 0 start(key), 1 complete(key,out), 2 advance(adv ms),
+// 3 burst(key,n): n callers call Start(key) at the same moment (the Go scheduler picks the interleaving).
 type RCStep struct {
 	K   int `json:"k"`
 	Key int `json:"key"`
 	Out int `json:"out,omitempty"` // complete: 0 success, 1 error, 2 not-found error
 	Adv int `json:"adv,omitempty"` // advance: milliseconds
+	N   int `json:"n,omitempty"`   // burst: callers
+	R   int `json:"r,omitempty"`   // burst: rounds; a request started by a round is completed successfully before the next
 }
 
 type RCCase struct {
@@ -51,7 +54,7 @@ func genRC(t *rapid.T) RCCase {
 		c.NotFoundTTL - 100, c.NotFoundTTL + 100, c.Cleanup + 100, 40000}
 	n := rapid.IntRange(3, 30).Draw(t, "nsteps")
 	for i := 0; i < n; i++ {
-		s := RCStep{K: rapid.SampledFrom([]int{0, 0, 0, 0, 1, 1, 1, 2, 2}).Draw(t, "k")}
+		s := RCStep{K: rapid.SampledFrom([]int{0, 0, 0, 0, 0, 1, 1, 1, 1, 2, 2, 2, 3}).Draw(t, "k")}
 		switch s.K {
 		case 0:
 			s.Key = rapid.IntRange(0, c.Keys-1).Draw(t, "key")
@@ -60,6 +63,10 @@ func genRC(t *rapid.T) RCCase {
 			s.Out = rapid.SampledFrom([]int{0, 1, 1, 2}).Draw(t, "out")
 		case 2:
 			s.Adv = rapid.SampledFrom(advs).Draw(t, "adv")
+		case 3:
+			s.Key = rapid.IntRange(0, c.Keys-1).Draw(t, "key")
+			s.N = rapid.IntRange(2, 6).Draw(t, "n")
+			s.R = rapid.IntRange(1, 6).Draw(t, "r")
 		}
 		c.Steps = append(c.Steps, s)
 	}
@@ -133,7 +140,9 @@ func (h *rcH) request(key int) dedup.Request {
 	}
 }
 
-func (h *rcH) launch(key int) *rcCall {
+func (h *rcH) launch(key int) *rcCall { return h.launchAt(key, nil) }
+
+func (h *rcH) launchAt(key int, barrier *spinBarrier) *rcCall {
 	h.nextID++
 	call := &rcCall{id: h.nextID, key: key}
 	ready := make(chan struct{})
@@ -142,6 +151,9 @@ func (h *rcH) launch(key int) *rcCall {
 		defer h.wg.Done()
 		call.gid = gid()
 		close(ready)
+		if barrier != nil {
+			barrier.wait()
+		}
 		var err error
 		func() {
 			defer func() {
@@ -170,15 +182,23 @@ func (h *rcH) checkEntry(e *rcExec) *pbt.Verdict {
 	return nil
 }
 
-// next returns the next result or entry.
-func (h *rcH) next() (*rcResult, *rcExec, bool) {
-	select {
-	case r := <-h.results:
-		return &r, nil, true
-	case e := <-h.entered:
-		return nil, e, true
-	case <-time.After(stallLimit):
-		return nil, nil, false
+// next returns the next result or entry; kind is "deadlock" or "timeout" if none can / did come.
+func (h *rcH) next() (r *rcResult, e *rcExec, kind string) {
+	var d *dog
+	for {
+		select {
+		case rr := <-h.results:
+			return &rr, nil, ""
+		case e := <-h.entered:
+			return nil, e, ""
+		case <-time.After(dogTick):
+			if d == nil {
+				d = newDog()
+			}
+			if k := d.tick(); k != "" {
+				return nil, nil, k
+			}
+		}
 	}
 }
 
@@ -216,9 +236,9 @@ func (h *rcH) strayResult(r *rcResult) *pbt.Verdict {
 
 func (h *rcH) awaitResult(call *rcCall) (error, *pbt.Verdict) {
 	for {
-		r, e, ok := h.next()
-		if !ok {
-			v := stall(fmt.Sprintf("RequestCache: Start(k%d) did not return", call.key), call.gid)
+		r, e, kind := h.next()
+		if kind != "" {
+			v := stall(kind, fmt.Sprintf("RequestCache: Start(k%d) did not return", call.key), call.gid)
 			return nil, &v
 		}
 		if e != nil {
@@ -240,13 +260,13 @@ func (h *rcH) awaitResult(call *rcCall) (error, *pbt.Verdict) {
 // awaitWaiterResult waits for the result of any Start in set.
 func (h *rcH) awaitWaiterResult(set []*rcCall, what string) (*rcResult, *pbt.Verdict) {
 	for {
-		r, e, ok := h.next()
-		if !ok {
+		r, e, kind := h.next()
+		if kind != "" {
 			var ids []int64
 			for _, c := range set {
 				ids = append(ids, c.gid)
 			}
-			v := stall(what, ids...)
+			v := stall(kind, what, ids...)
 			return nil, &v
 		}
 		if e != nil {
@@ -275,11 +295,9 @@ func (h *rcH) awaitEntry(key int, callGid int64) (*rcExec, *pbt.Verdict) {
 				return e, nil
 			}
 		}
-		r, e, ok := h.next()
-		if !ok {
-			// Start returned nil, so a goroutine running the request must exist; it is
-			// not one the harness can name, so a missing entry is only ever slowness.
-			v := pbt.Verdict{Discard: true, Classes: []string{"discard-slow-machine"}}
+		r, e, kind := h.next()
+		if kind != "" {
+			v := stall(kind, fmt.Sprintf("RequestCache: Start(k%d) reported success but its request did not run", key), callGid)
 			return nil, &v
 		}
 		if e != nil {
@@ -401,8 +419,8 @@ func (h *rcH) start(key int) *pbt.Verdict {
 	before := h.clk.nAfters()
 	call := h.launch(key)
 	for {
-		if !poll(stallLimit, func() bool { return h.clk.nAfters() > before || len(h.results) > 0 || len(h.entered) > 0 }) {
-			v := stall(fmt.Sprintf("RequestCache: Start(k%d) with all workers busy neither returned nor waited on the clock", key), call.gid)
+		if kind := waitUntil(func() bool { return h.clk.nAfters() > before || len(h.results) > 0 || len(h.entered) > 0 }); kind != "" {
+			v := stall(kind, fmt.Sprintf("RequestCache: Start(k%d) with all workers busy neither returned nor waited on the clock", key), call.gid)
 			return &v
 		}
 		var r *rcResult
@@ -449,6 +467,85 @@ func (h *rcH) start(key int) *pbt.Verdict {
 	return nil
 }
 
+// burst lets n callers race through Start(key). Whatever the interleaving, at
+// most one of them may start the request; the others report the key's state.
+func (h *rcH) burst(key, n int) *pbt.Verdict {
+	ce := h.cached[key]
+	startable := h.exec[key] == nil && (ce == nil || h.now > ce.exp)
+	if n < 2 || n > 8 || len(h.waiters) > 0 || (ce != nil && h.now == ce.exp && h.exec[key] == nil) ||
+		(startable && len(h.exec) >= h.c.Workers) {
+		h.cls["skip-burst"] = true
+		return nil
+	}
+	barrier := &spinBarrier{}
+	set := map[*rcCall]bool{}
+	var calls []*rcCall
+	for i := 0; i < n; i++ {
+		c := h.launchAt(key, barrier)
+		set[c] = true
+		calls = append(calls, c)
+	}
+	barrier.open()
+	started, pending := 0, 0
+	for len(set) > 0 {
+		r, v := h.awaitWaiterResult(calls, fmt.Sprintf("RequestCache: concurrent Start(k%d) calls did not return", key))
+		if v != nil {
+			return v
+		}
+		if !set[r.call] {
+			v := pbt.Fail("harness: duplicate result of a Start call")
+			return &v
+		}
+		delete(set, r.call)
+		switch {
+		case h.exec[key] != nil:
+			if r.err != dedup.ErrRequestPending {
+				v := pbt.Fail("RequestCache: Start(k%d) while its request is pending returned %q, want ErrRequestPending", key, fmt.Sprint(r.err))
+				return &v
+			}
+		case !startable:
+			if r.err != ce.err {
+				v := pbt.Fail("RequestCache: Start(k%d) with an unexpired cached error (expires in %d ms) returned %q, want the cached error %q", key, ce.exp-h.now, fmt.Sprint(r.err), ce.err.Error())
+				return &v
+			}
+		case r.err == nil:
+			started++
+		case r.err == dedup.ErrRequestPending:
+			pending++
+		default:
+			v := pbt.Fail("RequestCache: one of %d concurrent Start(k%d) calls on a startable key with a free worker returned %q", n, key, fmt.Sprint(r.err))
+			return &v
+		}
+	}
+	h.dedupAnswers += n - started
+	if !startable {
+		h.cls["burst-all-answered-from-state"] = true
+		return h.settle()
+	}
+	if started > 1 {
+		// the gate's in-flight counter reports it
+		for i := 0; i < started; i++ {
+			if _, v := h.awaitEntry(key, calls[0].gid); v != nil {
+				return v
+			}
+		}
+		v := pbt.Fail("RequestCache: %d of %d concurrent Start(k%d) calls reported success", started, n, key)
+		return &v
+	}
+	if started == 0 {
+		v := pbt.Fail("RequestCache: all %d concurrent Start(k%d) calls reported a pending request although none of them started it", n, key)
+		return &v
+	}
+	e, v := h.awaitEntry(key, calls[0].gid)
+	if v != nil {
+		return v
+	}
+	h.exec[key] = e
+	h.execs++
+	h.cls["burst-one-started"] = true
+	return h.settle()
+}
+
 func (h *rcH) errFor(out int) error {
 	switch out {
 	case 1:
@@ -468,8 +565,8 @@ func (h *rcH) complete(key, out int) *pbt.Verdict {
 	}
 	err := h.errFor(out)
 	e.release <- err
-	if !waitGone(e.gid, stallLimit) {
-		v := stall(fmt.Sprintf("RequestCache: goroutine of the finished request k%d did not end", key), e.gid)
+	if kind := waitGone(e.gid); kind != "" {
+		v := stall(kind, fmt.Sprintf("RequestCache: goroutine of the finished request k%d did not end", key), e.gid)
 		return &v
 	}
 	delete(h.exec, key)
@@ -576,7 +673,7 @@ func (h *rcH) teardown() {
 		case e.release <- nil:
 		default:
 		}
-		waitGone(e.gid, 5*time.Second)
+		poll(5*time.Second, func() bool { _, ok := dump()[e.gid]; return !ok })
 	}
 }
 
@@ -610,6 +707,18 @@ func runRC(c RCCase) pbt.Verdict {
 		case 2:
 			if s.Adv > 0 {
 				v = h.advance(s.Adv)
+			}
+		case 3:
+			for r := 0; r < s.R && r < 6 && v == nil; r++ {
+				if r > 0 {
+					if h.exec[s.Key] == nil {
+						break
+					}
+					if v = h.complete(s.Key, 0); v != nil {
+						break
+					}
+				}
+				v = h.burst(s.Key, s.N)
 			}
 		}
 		if v != nil {
